@@ -129,12 +129,9 @@ var codes = []int16{1, 3, 5, 6, 7, 9, 14, 15, 16, 19, 20, 22, 25, 27, 29, 36, 41
 func main() {
 	r := gen.New()
 	thorough := gen.Thorough()
-	followers := []string{"listOffsets", "metadata", "produce", "fetch", "heartbeat", "offsetFetch"}
-	if thorough {
-		followers = nil
-		for _, o := range connfake.Ops {
-			followers = append(followers, o.Name)
-		}
+	var followers []string
+	for _, o := range connfake.Ops {
+		followers = append(followers, o.Name)
 	}
 	ncases, nslow := 0, 0
 	emit := func(a, b *inst) {
@@ -182,9 +179,9 @@ func main() {
 					ne = n
 				}
 			}
-			reps := 1
+			reps := 3
 			if thorough {
-				reps = 3
+				reps = 10
 			}
 			for rep := 0; rep < reps; rep++ {
 				// no error at all (with and without records for fetch)
@@ -196,7 +193,7 @@ func main() {
 				for f := 0; f < ne && f < 12; f++ {
 					cs := codes
 					if !thorough {
-						cs = []int16{codes[r.Intn(len(codes))], codes[r.Intn(len(codes))], 6, 1}
+						cs = []int16{codes[r.Intn(len(codes))], codes[r.Intn(len(codes))], codes[r.Intn(len(codes))], 6, 1, 36}
 					}
 					for _, code := range cs {
 						errs := make([]int16, f+1)
